@@ -423,7 +423,7 @@ pub fn run(g: &mut Global) {
         &check,
     );
     let tier = g.tier;
-    g.random("random", g.tier.pick(40000, 300000), &move || strategy(tier), &check);
+    g.random("random", g.tier.pick(120000, 600000), &move || strategy(tier), &check);
     g.random("long", g.tier.pick(64, 800), &long_strategy, &check);
     // exact arithmetic: periods 1, 3, 7, 15 (alpha = 1, 1/2, 1/4, 1/8) on small-integer prices, where two different
     // averages become bit-equal in the middle of a stream (a shortcut keyed to "fast == slow" or "value unchanged"
